@@ -639,6 +639,9 @@ def gen_relay2(rng):
              {"kind": "P", "nout": 2, "inputs": [{"src": [0, 0], "chain": relay_in}]},
              {"kind": "T", "start": 0, "steps": [scc], "initpull": rng.random() < 0.3, "nout": 0,
               "inputs": [{"src": [1, 0], "chain": [["fixed", d]]}, {"src": [1, 1], "chain": [["pass"]] if rng.random() < 0.3 else []}]}]
+    if rng.random() < 0.3:
+        # both outputs read for the SAME time: the relay is reached twice with one and the same requirement
+        comps[2]["inputs"][0]["chain"] = [["pass"]] if rng.random() < 0.5 else []
     order = list(range(3))
     rng.shuffle(order)
     return {"comps": permute(comps, order), "end": scc * rng.choice([2, 3, 4])}
